@@ -68,6 +68,11 @@ type ExecDouble struct {
 	Gate chan struct{}
 	// Probe, when set, is sampled when SetFinal is called: the DA-included height reported at that instant.
 	Probe func() int
+	// FinalGate, when non-nil, is received from before SetFinal proceeds. Like a remote execution
+	// layer, a gated call honours its context: it fails with ctx.Err() when the context ends first.
+	FinalGate chan struct{}
+	// AtGate, when set, is called when a call starts waiting at its gate ("exec" / "final").
+	AtGate func(which string)
 }
 
 func NewExecDouble(tr *Tracer, node string, ids *TxIDs) *ExecDouble {
@@ -127,6 +132,9 @@ func (e *ExecDouble) RootIDs(root []byte) ([]string, bool) {
 
 func (e *ExecDouble) ExecuteTxs(ctx context.Context, txs [][]byte, blockHeight uint64, timestamp time.Time, prevStateRoot []byte) ([]byte, uint64, error) {
 	if e.Gate != nil {
+		if e.AtGate != nil {
+			e.AtGate("exec")
+		}
 		select {
 		case <-e.Gate:
 		case <-ctx.Done():
@@ -180,6 +188,17 @@ func (e *ExecDouble) ExecuteTxs(ctx context.Context, txs [][]byte, blockHeight u
 }
 
 func (e *ExecDouble) SetFinal(ctx context.Context, blockHeight uint64) error {
+	if e.FinalGate != nil {
+		if e.AtGate != nil {
+			e.AtGate("final")
+		}
+		select {
+		case <-e.FinalGate:
+		case <-ctx.Done():
+			e.tr.Emit("ExecFinal", F{"node": e.node, "h": int(blockHeight), "ok": false, "incl": -1})
+			return ctx.Err()
+		}
+	}
 	incl := -1
 	if p := e.Probe; p != nil {
 		incl = p()
